@@ -498,6 +498,12 @@ func (c *corrCtx) runParse(bases []baseCase, n int) {
 		c.checkParse("asa", "router", d)
 		c.checkParse("asa", "router.raw", d)
 	}
+	// IOS IPv6 static routes are commands of the table since upstream 3341f0d (parsed, no longer skipped as unknown)
+	for _, d := range []string{"ipv6 route 10::20:0/112 10::1:3\n", "ipv6 route vrf 013 10::30:0/112 10::3:3\nip route 10.0.0.0 255.0.0.0 10.1.1.1\n",
+		"ipv6 route\n", "ipv6 route vrf\n", "ipv6 route vrf X\n", "ipv6 route 10::/64 10::1 5\nipv6 route 10::/64 10::1\n"} {
+		c.checkParse("ios", "router", d)
+		c.checkParse("ios", "router.raw", d)
+	}
 	// an ACL that starts with a remark or standard line and whose extended lines reference object-groups
 	for _, d := range []string{
 		"object-group network g1\n network-object host 10.1.1.1\naccess-list A remark first\naccess-list A extended permit ip object-group g1 any4\naccess-group A global\n",
@@ -754,12 +760,34 @@ func (c *corrCtx) runRoutes(lines []string, n int) {
 			}, nil)
 		}
 	}
+	// stripMetric (postprocessParsed on prefix route / ipv6 route): six words lose the last one unless word 3 is "vrf"
+	metric := func(line string) {
+		prefix := "route"
+		if strings.HasPrefix(line, "ipv6 ") {
+			prefix = "ipv6 route"
+		}
+		if strings.Contains(line, "|") || strings.HasPrefix(line, "ip ") {
+			return
+		}
+		req := strings.Join([]string{"metric", line}, cUS)
+		c.check("stripMetric", req, len(strings.Split(line, " ")) >= 5, func() string {
+			r := cisco.VerifC20PostprocessParsed(prefix, []string{"n"}, []string{line})
+			return strings.SplitN(r[0], "|", 3)[1]
+		}, nil)
+	}
+	for _, l := range []string{"route inside 10.0.0.0 255.0.0.0 1.1.1.1 5", "route inside 10.0.0.0 255.0.0.0 1.1.1.1", "ipv6 route inside ::/0 2001::1 5",
+		"ipv6 route vrf X 2001::/64 2001::1", "ipv6 route vrf X 2001::/64 2001::1 5", "ipv6 route inside vrf ::/0 2001::1", "route vrf vrf vrf vrf vrf",
+		"ipv6 route  vrf X 2001::/64", "a b c d e f", "a b vrf d e f", "a b  d e f", "a b", "", "a b c d e f g"} {
+		metric(l)
+	}
 	cnt := 0
 	for _, l := range cand {
 		if cnt > n {
 			break
 		}
 		one(l)
+		metric(l)
+		metric(l + " 7")
 		w := strings.Split(l, " ")
 		for k := 1; k < len(w); k++ {
 			if w[k-1] != "" {
